@@ -227,6 +227,12 @@ class J1939_21:
 
                             # state is ready for recv - Now send the message
                             self.__send_tp_dt(buf['src_address'], buf['dest_address'], data)
+                            if self._minimum_tp_rts_cts_dt_interval != None:
+                                # the interval to the next packet counts from the end of the write
+                                # (the time a slow interface takes must not be taken out of it)
+                                buf['last_dt_time'] = time.time()
+                                if buf['state'] == self.SendBufferState.SENDING_IN_CTS:
+                                    buf['deadline'] = max(buf['deadline'], buf['last_dt_time'] + self._minimum_tp_rts_cts_dt_interval)
                             if should_break:
                                 break
 
